@@ -125,6 +125,7 @@ func c06Cases() []c06Case {
 		c06Case{"nested-unsupplied-keeps-fallback", map[string]string{"p.vuego": `<template include="panel.vuego"><i>hello</i></template>`,
 			"panel.vuego": `<div><template include="badge.vuego"></template><slot>PANEL-FB</slot></div>`, "badge.vuego": `<span><slot>new</slot></span>`}, d, "newhello"},
 	)
+	cases = append(cases, c06PropNames()...)
 	return append(cases, c06Generated()...)
 }
 
